@@ -147,13 +147,16 @@ Definition drop_empty (s : st) (n : N) : result st :=
 
 (* Bucket::put(other) on bucket node `own`: drop `other`, add its liquid content *)
 Definition bucket_put (s : st) (own other : N) : result st :=
-  let! (s1, (_, vo)) := drop_bucket s other in
+  let! (s1, (ro, vo)) := drop_bucket s other in
   match afind own (buckets s1), vo with
   | Some (r, CF c), CF co =>
+      if negb (ro =? r) then Err EOther        (* "not an inner object of the current resource" *)
+      else
       let! l := liq_put (fliq c) (fliq co) in
       Ok (set_buckets s1 (aset own (r, CF {| fliq := l; flocked := flocked c |}) (buckets s1)))
   | Some (r, CN c), CN co =>
-      Ok (set_buckets s1 (aset own (r, CN (n_put (nliq co) c)) (buckets s1)))
+      if negb (ro =? r) then Err EOther
+      else Ok (set_buckets s1 (aset own (r, CN (n_put (nliq co) c)) (buckets s1)))
   | _, _ => Err EOther
   end.
 
